@@ -260,10 +260,15 @@ def build(ctx):
     ctx.unit("sections", lambda: unit_sections(ctx))
     ctx.unit("invariant", lambda: unit_invariant(ctx))
     ctx.unit("lifetime", lambda: unit_lifetime(ctx))
+    # "evaluator.evaluate is thread-compatible" rests on the frames of what it calls: the matchers keep no per-call state on themselves
+    include_stage(ctx, "C14", only=lambda mod, sub: [sub.unit(f"merge[{m}]", lambda m=m: mod.unit_merge(sub, m)) for m in ("IOU",)])
+    include_stage(ctx, "C03", only=lambda mod, sub: [sub.unit("scorer[IOU]", lambda: mod.unit_scorer(sub, "IOU"))])  # pools do not outlive a call (fork safety)
     ctx.add_bounded("c16-schedules", "c16.bounded")
 
 
 def concretise(ctx, o, r):
+    if (o.info or {}).get("stage"):
+        return stage_concretise(ctx, o, r)
     if o.replay == "c16.lifetime":
         return {}
     return {"obligation": o.name}
